@@ -208,6 +208,7 @@ def gen_graph(rng, knobs=None):
                              {"target": rng.choice(["iso_fortran_env", "iso_c_binding", "mpi"]), "only": None,
                               "renames": [], "prefix": rng.choice(["intrinsic", "", "intrinsic"])})
         gen_access(rng, units, u, knobs)
+        gen_module_refs(rng, units, u)
         units.append(u)
     if knobs.get("program", rng.random() < 0.6):
         units.append(gen_program(rng, units, forms, knobs))
@@ -231,6 +232,26 @@ def gen_access(rng, units, u, knobs):
                 u["access"].append([n, True])
             elif r < 0.25 and knobs.get("regions"):
                 u["access"].append([n, False])
+
+
+def gen_module_refs(rng, units, u):
+    """module variables / types declared with a use-associated type or abstract interface"""
+    if rng.random() < 0.6:
+        return
+    tag = u["name"][-1]
+    imp = guess_imports(units, u)
+    k = 0
+    for n, kind in sorted(imp.items()):
+        if k >= 2 or rng.random() < 0.5:
+            continue
+        what = {"type": rng.choice(["type", "type", "extends"]), "abs": "procptr"}.get(kind)
+        if what is None:
+            continue
+        k += 1
+        d = {"name": f"{'t' if what == 'extends' else 'v'}{tag}r{k}", "kind": "type" if what == "extends" else "var",
+             "perm": "default", "how": None, "ref": {"what": what, "id": n}, "function": False}
+        u["decls"].append(d)
+    fix_perms(rng, {"default": u["default"], "decls": [d for d in u["decls"] if d["how"] is None]})
 
 
 def gen_program(rng, units, forms, knobs):
@@ -374,7 +395,13 @@ def cpairs(l):
 
 
 def coq_module(u):
-    ds = "[" + "; ".join(f"D {cs(d['name'])} {COQ_KIND[d['kind']]} {COQ_PERM[d['perm']]}" for d in u["decls"]) + "]"
+    def kind(d):
+        # a procedure pointer declared in a module is also an entry of the module's procedure
+        # dictionaries (FortranModule._cleanup); in a program it is a plain variable
+        if d["kind"] == "var" and (d.get("ref") or {}).get("what") == "procptr" and u["unit"] == "module":
+            return "KProcPtr"
+        return COQ_KIND[d["kind"]]
+    ds = "[" + "; ".join(f"D {cs(d['name'])} {kind(d)} {COQ_PERM[d['perm']]}" for d in u["decls"]) + "]"
     acc = "[" + "; ".join(f"({cs(n)}, {'true' if p else 'false'})" for n, p in u["access"]) + "]"
     us = "[" + "; ".join(
         "U {} {} {}".format(cs(x["target"]), "None" if x["only"] is None else f"(Some {cpairs(x['only'])})",
